@@ -241,8 +241,12 @@ structure Acc where
   crashed : Array Bool := #[false, false]
   taints : Array (List Taint) := #[[], []]
   -- is the history of each fs instance inside the proved fragments (up to its first crash)?
+  -- `inFrag` / `inFlat`: the fragments of `C10_partial` / `C07_partial` (`fragOkC`, `flatRunC`; the flat
+  -- one also needs the atomic-write configuration); `…0`: the fragments before the widening
   inFrag : Array Bool := #[true, true]
   inFlat : Array Bool := #[true, true]
+  inFrag0 : Array Bool := #[true, true]
+  inFlat0 : Array Bool := #[true, true]
   used : Array Bool := #[false, false]
   v : Verdict := {}
 
@@ -276,8 +280,11 @@ def evalOne (prop : String) (cfg : Cfg) (fx : Fixes) (a : Acc) (line h : Nat) (o
     else ts0
   a := { a with taints := a.taints.set! h ts, used := a.used.set! h true }
   if !a.crashed[h]! && op != .crash then
-    a := { a with inFrag := a.inFrag.set! h (a.inFrag[h]! && fragOk sp.l op && !ora.coin),
-                  inFlat := a.inFlat.set! h (a.inFlat[h]! && fragOk sp.l op && opFlat op && !ora.coin) }
+    a := { a with inFrag := a.inFrag.set! h (a.inFrag[h]! && fragOkC op && !ora.coin),
+                  inFlat := a.inFlat.set! h (a.inFlat[h]! && fragOkC op && opFlat op && !ora.coin && cfg.block.isNone),
+                  inFrag0 := a.inFrag0.set! h (a.inFrag0[h]! && fragOk sp.l op && !ora.coin),
+                  inFlat0 := a.inFlat0.set! h (a.inFlat0[h]! && fragOk sp.l op && opFlat op && !ora.coin
+                    && cfg.block.isNone) }
   for t in patternsAt st sp op do
     v := { v with cov := addCov v.cov [s!"hit{t.1}"] }
   -- C07 compares the view *right after* a crash: any later mutation ends that window
@@ -357,7 +364,8 @@ def evalClone (prop : String) (a : Acc) (line h s s2 : Nat) (implObs : String) :
   if v.oOk && prop == "C10" && renderObs so != implObs then
     v := { v with oOk := false, oLine := line, oDetail := s!"at=/ posix={renderObs so} impl={implObs}" }
   return { a with sts := a.sts.set! h st1, sps := a.sps.set! h sp1, used := a.used.set! h true,
-                  inFrag := a.inFrag.set! h false, inFlat := a.inFlat.set! h false, v := v }
+                  inFrag := a.inFrag.set! h false, inFlat := a.inFlat.set! h false,
+                  inFrag0 := a.inFrag0.set! h false, inFlat0 := a.inFlat0.set! h false, v := v }
 
 def evalCase (prop : String) (c : CaseIn) (fx : Fixes := {}) : Verdict := Id.run do
   let cfg : Cfg := { block := c.block }
@@ -370,9 +378,10 @@ def evalCase (prop : String) (c : CaseIn) (fx : Fixes := {}) : Verdict := Id.run
     | none, none =>
       if a.v.kOk then a := { a with v := { a.v with kOk := false, kLine := r.line, kDetail := "unparsed op" } }
     | none, some op => a := evalOne prop cfg fx a r.line h op op r.ora r.obs
-  let fragAll := (List.range 2).all fun i => !a.used[i]! || a.inFrag[i]!
-  let flatAll := (List.range 2).all fun i => !a.used[i]! || a.inFlat[i]!
-  return { a.v with cov := addCov a.v.cov ((if fragAll then ["infrag"] else []) ++ (if flatAll then ["inflat"] else [])) }
+  let allOf (x : Array Bool) : Bool := (List.range 2).all fun i => !a.used[i]! || x[i]!
+  return { a.v with cov := addCov a.v.cov ((if allOf a.inFrag then ["infrag"] else [])
+    ++ (if allOf a.inFlat then ["inflat"] else []) ++ (if allOf a.inFrag0 then ["infrag0"] else [])
+    ++ (if allOf a.inFlat0 then ["inflat0"] else [])) }
 
 /-! ### trace reader -/
 
